@@ -111,10 +111,18 @@ package query
 //@   modifies *
 //@   ensures smOK(p.sm) && (parentStageID != "" ==> (!p.sm.done[parentStageID] && has(p.sm.stages, parentStageID)))
 //@ end
+//@ # a stage that was registered with the state machine (pending counted up) is handed to its executor before the function
+//@ # returns: a registered stage that is never executed never completes, pending never drains and the callback never fires
+//@ ghost field pipeline.registeredNotExecuted bool
+//@ stable pipeline.registeredNotExecuted
 //@ func pipeline.executeStage#body
 //@   prop C19
+//@   ghost_entry p.registeredNotExecuted = false
+//@   ghost_after pipelineStateMachine.executeStage p.registeredNotExecuted = true
+//@   ghost_after Stage.Execute p.registeredNotExecuted = false
 //@   requires smOK(p.sm) && (parentStageID == "" || (!p.sm.done[parentStageID] && has(p.sm.stages, parentStageID)))
 //@   modifies *
+//@   ensures[a_registered_stage_is_handed_to_its_executor] !p.registeredNotExecuted
 //@ end
 //@ # completion handler of a stage: every child is registered while this stage is still pending,
 //@ # completeStage comes last (so pending cannot reach zero before the children are counted)
